@@ -238,7 +238,7 @@ func (r *Runner) Resolve(tag int, id Ident) *Obs {
 		p := r.target(tag)
 		rt := RType(id.T)
 		toEntry := func(v any) {
-			if s, ok := v.(Svc); ok && s != nil && !isNilValue(v) && s.Ent() != nil {
+			if s := svcOf(v); s != nil && s.Ent() != nil {
 				o.Entries = append(o.Entries, s.Ent())
 			} else {
 				o.Foreign = true
@@ -290,6 +290,60 @@ func (r *Runner) Resolve(tag int, id Ident) *Obs {
 		}
 	})
 	undo()
+	o.EndSeq = r.W.NextSeq()
+	r.addObs(o)
+	return o
+}
+
+// CollEdit is one change made to the collection after the provider was built.
+type CollEdit struct {
+	Remove bool
+	Ident  Ident
+	Life   int
+}
+
+func (e CollEdit) String() string {
+	if e.Remove {
+		return "remove " + e.Ident.String()
+	}
+	return fmt.Sprintf("add %s %s", []string{"Sing", "Scop", "Tran"}[e.Life], e.Ident)
+}
+
+// EditCollection changes the collection the provider was built from: a built
+// provider is unaffected by later changes to the collection, so nothing that
+// is observed afterwards may differ. Errors of the edits themselves (removing
+// what is not there, adding what is there) are of no interest here.
+func (r *Runner) EditCollection(edits []CollEdit) *Obs {
+	o := &Obs{Kind: "cedit", StartSeq: r.W.NextSeq()}
+	guard(o, func() {
+		for _, e := range edits {
+			rt := RType(e.Ident.T)
+			if e.Remove {
+				if e.Ident.Key != "" {
+					r.Coll.RemoveKeyed(rt, e.Ident.Key)
+				} else {
+					r.Coll.Remove(rt)
+				}
+				continue
+			}
+			var opts []godi.AddOption
+			if e.Ident.Key != "" {
+				opts = append(opts, godi.Name(e.Ident.Key))
+			}
+			if e.Ident.Group != "" {
+				opts = append(opts, godi.Group(e.Ident.Group))
+			}
+			ctor := r.W.ThrowawayCtor(e.Ident.T, "a registration added after Build ("+e.String()+")")
+			switch e.Life {
+			case Singleton:
+				_ = r.Coll.AddSingleton(ctor, opts...)
+			case Scoped:
+				_ = r.Coll.AddScoped(ctor, opts...)
+			default:
+				_ = r.Coll.AddTransient(ctor, opts...)
+			}
+		}
+	})
 	o.EndSeq = r.W.NextSeq()
 	r.addObs(o)
 	return o
@@ -431,7 +485,7 @@ func isNilValue(v any) bool {
 
 // EntryOf returns the ledger entry behind a resolved value (nil for foreign or nil values).
 func EntryOf(v any) *Entry {
-	if s, ok := v.(Svc); ok && s != nil && !isNilValue(v) {
+	if s := svcOf(v); s != nil {
 		return s.Ent()
 	}
 	return nil
